@@ -67,7 +67,15 @@ func evalC16(c *core.Ctx, _ *eco.Eco, op string, args []string) []core.Violation
 	}
 	g2, e2, p2 := eco.SafeVersContains(alt, probe)
 	mk := func(got string) []core.Violation {
-		return []core.Violation{{Eco: "vers", Op: "vers-meta", Args: []string{base, alt, probe, kind}, Rule: kind, Got: got, Want: b2s(g1) + ",nil"}}
+		rule := kind
+		var texts []string
+		for _, cn := range cons {
+			texts = append(texts, cn.txt)
+		}
+		if inheritedNonTransitive(e, append(texts, probe)) {
+			rule += ":inherited-from-reference"
+		}
+		return []core.Violation{{Eco: "vers", Op: "vers-meta", Args: []string{base, alt, probe, kind}, Rule: rule, Got: got, Want: b2s(g1) + ",nil"}}
 	}
 	if p2 != nil {
 		return mk("panic: " + p2.Value)
